@@ -556,6 +556,15 @@ def register(I):
     def push_str(I, st, args, info):
         r = args[0]
         cur = I.read_ref(r, st)
+        addv = deref_all(I, args[1], st)
+        if isinstance(addv, Union):
+            # the appended text depends on the path condition (e.g. a slice at a symbolic boundary): one alternative per text
+            alts = []
+            for g_, a_ in addv.alts:
+                its = tuple(as_str_items(I, a_, st))
+                alts.append((g_, umap(lambda c, its=its: StringV(c.items + its), cur)))
+            I.write_cell(r.key, r.path, merge_many(alts), st)
+            return ()
         add = as_str_items(I, args[1], st)
         I.write_cell(r.key, r.path, umap(lambda c: StringV(c.items + tuple(add)), cur), st)
         return ()
@@ -1338,9 +1347,27 @@ def register(I):
 
     @reg("Iterator::skip")
     def it_skip(I, st, args, info):
-        if not isinstance(args[1], int):
-            raise Unsupported("symbolic skip count")
-        return IterV(drive(I, args[0], st)[args[1]:])
+        items = drive(I, args[0], st)
+        n = args[1]
+        if isinstance(n, int):
+            return IterV(items[n:])
+        # a symbolic count: one path per feasible number of skipped elements
+        outs = []
+        cands = list(alts_of(n)) if isinstance(n, Union) else [(True, n)]
+        for g0, nv in cands:
+            if isinstance(nv, ByteLen):
+                nv = nv.term() if nv.items is not None else nv.n
+            for k in range(len(items) + 1):
+                if isinstance(nv, int):
+                    g = g0 if (nv == k or (k == len(items) and nv >= k)) else False
+                else:
+                    g = b_and(g0, (nv == k) if k < len(items) else z3.UGE(nv, k))
+                if g is False or (g is not True and not I.feasible(st.pc, g)):
+                    continue
+                outs.append((st.fork(g) if g is not True else st, IterV(items[k:])))
+        if len(outs) == 1:
+            return outs[0][1] if outs[0][0] is st else outs
+        return outs
 
     @reg("Iterator::take")
     def it_take(I, st, args, info):
